@@ -1,7 +1,8 @@
 """C04 — generated text maps into the source span of the construct that generated it."""
 import t2t, corr, semrun, sem, cref
 
-OBLIGATIONS = ['Yalafi.C04_latexError_anchor', 'Yalafi.C04_restamp', 'Yalafi.C04_genRepl_anchor']
+OBLIGATIONS = ['Yalafi.C04_latexError_anchor', 'Yalafi.C04_restamp', 'Yalafi.C04_genRepl_anchor',
+               'Yalafi.C04_heading_e2e', 'Yalafi.C04_items_e2e', 'Yalafi.C04_heading_current']
 
 def judge(case, res):
     fails = []
